@@ -12,7 +12,14 @@ CHECKS = {
    design="5/C03"),
 }
 
+CHECKS["C02"] = dict(
+   technique="bounded-exhaustive enumeration of clause trees x frames x index shapes; row-wise reference evaluator",
+   text="Every leaf of a ~600-leaf alphabet (all comparators x argument kinds x Inverse for all five column types) alone and in wrappers on 4 frames x 5 physical index shapes, every ordered pair of leaves under And/Or/Or(Not), and every And/Or/Not tree up to 3 (quick) / 4 (thorough) leaf slots with every assignment of core leaves, each executed by the real Filter and compared with a row-wise evaluator of the statement (kept rows, order, all cells).",
+   note="Trusted: the reference evaluator (model/clause.go). Cell values are limited to one designed 5-row frame and three degenerate frames; enum columns are declared.",
+   design="5/C02")
+
 NOT_YET = {}
+BASELINE_CMD = "for m in $(cat /w/out/gomods.txt); do MF=$(cd /repo/$m && . /w/out/goenv.sh && gomodflag); (cd /repo/$m && go test $MF -json -vet=off -count=1 -timeout 25m ./...); done"
 
 def main():
     props = [json.loads(l)["id"] for l in open(os.path.join(HERE, "properties.jsonl"))]
@@ -41,7 +48,7 @@ def main():
         "hooks": {
             "guard": "verif",
             "enable": "go build -tags verif -overlay /verif/build/overlay.json (overlay adds verifseam/seam.go, internal/sort/zz_verif.go, internal/fastcsv/zz_verif.go; no file in /repo is modified)",
-            "baseline_off_cmd": "cd /repo && GOFLAGS=-mod=mod GOPROXY=off GOSUMDB=off go test -json -vet=off -count=1 -timeout 25m ./...",
+            "baseline_off_cmd": json.load(open("/root/.vp/BASELINE.json"))["cmd"] if os.path.exists("/root/.vp/BASELINE.json") else BASELINE_CMD,
             "source_commits": [],
             "add_only": True,
         },
